@@ -311,17 +311,26 @@ def m_concat(E, st, fr, bi, callee, args, dest_ty):
     if outer.head and st.const(outer.len) == len(outer.head):
         total = usize(E, st, 0)
         elem = None
+        heads = {}
+        exact = True
         for k in sorted(outer.head):
             part = deref2(E, st, outer.head[k])
             if type(part) is not Sq:
                 raise Unsupported("concat part")
+            off = st.const(total)
+            pl = st.const(part.len)
+            if exact and off is not None and pl is not None and off + pl <= 64 and (pl == 0 or (part.head and len(part.head) == pl)):
+                for i in range(pl):
+                    heads[off + i] = part.head[i]
+            else:
+                exact = False
             total = E.binop(st, "Add", total, part.len, usz, False)
             pe = E._flat_elem(st, part)
             if st.hi(part.len) > 0:
                 elem = pe if elem is None else E.join_vals(st, elem, pe)
             elif elem is None:
                 elem = pe
-        return ret1(Sq(elem, total, None, None), st)
+        return ret1(Sq(elem, total, heads if (exact and heads) else None, None), st)
     inner = deref2(E, st, outer.elem)
     return ret1(Sq(inner.elem, usize(E, st, 0, ISIZE_MAX), None, None), st)
 
